@@ -440,6 +440,140 @@ def _enum_member(ctx: Ctx, fi: FuncInfo, e) -> tuple | None:
     return id(r.node), e.attr
 
 
+# ------------------------------------------------------------------------------------------ derived constants
+# A size that is DERIVED instead of written as a literal is the number it evaluates to: struct.calcsize(<literal format>),
+# struct.Struct(<literal format>).size, len(<constant bytes / str / tuple>), hashlib.<algorithm>().digest_size, arithmetic
+# over those, module / class constants and once-assigned locals defined that way.  Only these documented pure functions
+# of literals are evaluated (with the analyser's own struct module); nothing of the analysed code is run.
+class _StructConst:
+    def __init__(self, fmt) -> None:
+        self.fmt = fmt
+
+
+_DIGEST_SIZES = {"md5": 16, "sha1": 20, "sha224": 28, "sha256": 32, "sha384": 48, "sha512": 64,
+                 "sha3_224": 28, "sha3_256": 32, "sha3_384": 48, "sha3_512": 64}
+
+
+def _fold_const(ctx: Ctx, m, cls, fi: FuncInfo | None, e, depth: int = 8):
+    """value of expression e of module m (class cls / function fi when inside one), NOCONST when it is not static"""
+    import struct as _struct
+    repo = ctx.repo
+    if depth <= 0 or e is None:
+        return NOCONST
+    e = strip_cast(e)
+    try:
+        v = repo.resolve_const(m, e, cls)
+    except Exception:  # noqa: BLE001
+        v = NOCONST
+    if v is not NOCONST:
+        return v
+    imports = _function_imports(fi) if fi is not None else m.imports
+    local = _local_names(fi) if fi is not None else set()
+
+    def rec(x):
+        return _fold_const(ctx, m, cls, fi, x, depth - 1)
+
+    def lib(f, module: str, name: str) -> bool:
+        if isinstance(f, ast.Name) and f.id not in local:
+            return imports.get(f.id) == (module, name)
+        if isinstance(f, ast.Attribute) and isinstance(f.value, ast.Name) and f.value.id not in local:
+            return f.attr == name and imports.get(f.value.id) == (module, None)
+        return False
+
+    def builtin(f, name: str) -> bool:
+        return isinstance(f, ast.Name) and f.id == name and name not in local and name not in imports \
+            and name not in m.classes and name not in m.functions and name not in m.constants
+
+    if isinstance(e, ast.Name):
+        if e.id in local:
+            if fi is not None and e.id not in fi.params():
+                d = single_def(fi, e.id)
+                if d is not None and d[1] is None:
+                    return rec(d[0])
+            return NOCONST
+        r = repo.resolve_name(m, e.id)
+        if isinstance(r, tuple) and r[0] == "const":
+            return _fold_const(ctx, r[1], None, None, r[2], depth - 1)
+        return NOCONST
+    if isinstance(e, ast.Attribute):
+        if e.attr in ("size", "digest_size"):
+            b = rec(e.value)
+            if e.attr == "size" and isinstance(b, _StructConst):
+                try:
+                    return _struct.calcsize(b.fmt)
+                except Exception:  # noqa: BLE001
+                    return NOCONST
+            bv = strip_cast(e.value)
+            if e.attr == "digest_size" and isinstance(bv, ast.Call) and not bv.args and not bv.keywords:
+                for algo, n in _DIGEST_SIZES.items():
+                    if lib(bv.func, "hashlib", algo):
+                        return n
+        c = None
+        if isinstance(e.value, ast.Name) and e.value.id in ("self", "cls") and cls is not None:
+            c = cls
+        elif isinstance(e.value, ast.Name) and e.value.id not in local:
+            c = repo.resolve_class_expr(m, e.value)
+        if c is not None:
+            a = c.lookup_attr(e.attr)
+            if a is not None:
+                owner = next((k for k in c.mro() if e.attr in k.attrs), None)
+                if owner is not None:
+                    return _fold_const(ctx, owner.module, owner, None, a, depth - 1)
+        return NOCONST
+    if isinstance(e, ast.Call) and not e.keywords and not any(isinstance(a, ast.Starred) for a in e.args):
+        if len(e.args) == 1 and lib(e.func, "struct", "calcsize"):
+            fmt = rec(e.args[0])
+            if isinstance(fmt, (str, bytes)):
+                try:
+                    return _struct.calcsize(fmt)
+                except Exception:  # noqa: BLE001
+                    return NOCONST
+        if len(e.args) == 1 and lib(e.func, "struct", "Struct"):
+            fmt = rec(e.args[0])
+            return _StructConst(fmt) if isinstance(fmt, (str, bytes)) else NOCONST
+        if len(e.args) == 1 and builtin(e.func, "len"):
+            x = rec(e.args[0])
+            return len(x) if isinstance(x, (bytes, str, tuple, list)) else NOCONST
+        return NOCONST
+    if isinstance(e, ast.UnaryOp) and isinstance(e.op, (ast.USub, ast.UAdd)):
+        x = rec(e.operand)
+        if isinstance(x, int) and not isinstance(x, bool):
+            return -x if isinstance(e.op, ast.USub) else x
+        return NOCONST
+    if isinstance(e, ast.BinOp) and isinstance(e.op, (ast.Add, ast.Sub, ast.Mult, ast.FloorDiv)):
+        a, b = rec(e.left), rec(e.right)
+        ints = all(isinstance(x, int) and not isinstance(x, bool) for x in (a, b))
+        try:
+            if ints:
+                return a + b if isinstance(e.op, ast.Add) else a - b if isinstance(e.op, ast.Sub) else \
+                    a * b if isinstance(e.op, ast.Mult) else a // b
+            if isinstance(e.op, ast.Add) and type(a) is type(b) and isinstance(a, (bytes, str, tuple)):
+                return a + b
+            if isinstance(e.op, ast.Mult) and isinstance(a, (bytes, str)) and isinstance(b, int) and not isinstance(b, bool) \
+                    and 0 <= b <= 4096:
+                return a * b
+        except Exception:  # noqa: BLE001
+            return NOCONST
+        return NOCONST
+    return NOCONST
+
+
+def _const(ctx: Ctx, fi: FuncInfo, e):
+    """static value of expression e of function fi (literals, module / class constants, derived sizes), else NOCONST"""
+    return _fold_const(ctx, fi.module, fi.cls, fi, e)
+
+
+def _fold_ints(ctx: Ctx, fi: FuncInfo, e):
+    """copy of e (shared where unchanged) with every sub-expression that is a static integer replaced by its literal"""
+    def fn(n):
+        if isinstance(n, (ast.Name, ast.Call, ast.Attribute, ast.BinOp)) and isinstance(getattr(n, "ctx", ast.Load()), ast.Load):
+            v = _const(ctx, fi, n)
+            if isinstance(v, int) and not isinstance(v, bool):
+                return ast.copy_location(ast.Constant(value=v), n)
+        return n
+    return e if e is None else _map_bottom_up(e, fn)
+
+
 def _static_value(ctx: Ctx, fi: FuncInfo, e):
     """('const', python value) / ('display', number of items) / ('enum', member identity) for literals, displays, module
     constants and Enum members, else None"""
@@ -765,6 +899,51 @@ def _fact_in_assert(f: Fact) -> bool:
     return not getattr(f, "derived", False) and _in_assert(f.atom)
 
 
+def _display_items(fi: FuncInfo, e) -> list[ast.AST] | None:
+    """the items of a display written in place - (a, b) / [a, b] / {a, b}, also wrapped in tuple / list / set / frozenset
+    (...) or enumerated by a comprehension / generator that passes each item through unchanged - else None"""
+    e = strip_cast(e)
+    for _ in range(3):
+        if isinstance(e, ast.Call) and len(e.args) == 1 and not e.keywords and not isinstance(e.args[0], ast.Starred) \
+                and _builtin_chain(fi, e.func) in ("tuple", "list", "set", "frozenset", "iter"):
+            e = strip_cast(e.args[0])
+        elif isinstance(e, (ast.GeneratorExp, ast.ListComp, ast.SetComp)) and len(e.generators) == 1 \
+                and not e.generators[0].ifs and not e.generators[0].is_async and isinstance(e.elt, ast.Name) \
+                and isinstance(e.generators[0].target, ast.Name) and e.elt.id == e.generators[0].target.id:
+            e = strip_cast(e.generators[0].iter)
+        else:
+            break
+    if isinstance(e, (ast.Tuple, ast.List, ast.Set)) and not any(isinstance(x, ast.Starred) for x in e.elts):
+        return list(e.elts)
+    return None
+
+
+def _quantifier_facts(fi: FuncInfo, f: Fact) -> list[tuple[ast.AST, bool]]:
+    """
+    (atom, polarity) that follow from one fact by the meaning of the builtins:
+      not any((a, b, ...))  =>  not a, not b, ...        all((a, b, ...))  =>  a, b, ...
+      x in (a,) / [a] / {a} / frozenset((a,))  =>  x == a           x not in (a, b)  =>  x != a, x != b
+    (the items of a display are all evaluated, there is no short-circuit to account for).
+    """
+    from ..match import _atoms_with_polarity
+    out: list[tuple[ast.AST, bool]] = []
+    if f.op == "truthy":
+        c = strip_cast(f.left)
+        if isinstance(c, ast.Call) and len(c.args) == 1 and not c.keywords and not isinstance(c.args[0], ast.Starred):
+            which = _builtin_chain(fi, c.func)
+            if (which == "any" and not f.pos) or (which == "all" and f.pos):
+                items = _display_items(fi, c.args[0])
+                for it in items or []:
+                    out.extend((g.atom, _atom_pol(g)) for g in _atoms_with_polarity(it, f.pos))
+    elif f.op == "in" and f.right is not None:
+        items = _display_items(fi, f.right)
+        if items and (len(items) == 1 or not f.pos):
+            for it in items:
+                cmp_ = ast.copy_location(ast.Compare(left=f.left, ops=[ast.Eq()], comparators=[it]), f.atom)
+                out.append((cmp_, f.pos))
+    return out
+
+
 def _site_facts(ctx: Ctx, fi: FuncInfo, cfg, site: ast.AST, rounds: int = 2) -> list[Fact]:
     """
     facts_at(site) plus the facts that follow from them through decisions:
@@ -791,6 +970,11 @@ def _site_facts(ctx: Ctx, fi: FuncInfo, cfg, site: ast.AST, rounds: int = 2) -> 
 
     try:
         work = [f for f in base if not _fact_in_assert(f)]
+        # an or-chain / and-chain spelled as any(<display>) / all(<display>), `x == a` spelled as membership in a
+        # one-element collection: the facts of the chain it stands for
+        for f in list(work):
+            for a, p in _quantifier_facts(fi, f):
+                work.extend(add(a, p))
         for rnd in range(rounds):
             new: list[Fact] = []
             for f in work:
@@ -1094,6 +1278,220 @@ def _bind_call(call: ast.Call, callee: FuncInfo, *, receiver: bool) -> dict[str,
     return out
 
 
+def _bound_varargs(call: ast.Call, callee: FuncInfo, *, receiver: bool) -> list[ast.AST] | None:
+    """the positional arguments of `call` that end up in the callee's `*args` (in order); None when the callee has no
+    `*args` or the call spreads a sequence itself (then the split between named parameters and *args is unknown)"""
+    a = callee.node.args
+    if a.vararg is None or any(isinstance(x, ast.Starred) for x in call.args):
+        return None
+    pos = [x.arg for x in a.posonlyargs + a.args]
+    if receiver:
+        pos = pos[1:]
+    return list(call.args[len(pos):])
+
+
+# ------------------------------------------------------------------------------------------ calls: value of a helper call
+# A block that was moved into a helper the normaliser cannot inline (a function of another module, a method of a mixin /
+# base class, a function that is handed the object) still computes the same value: for a STRAIGHT-LINE helper (a
+# sequence of once-only assignments to locals followed by one `return E`; no branch, loop, try, nested scope, decorator)
+# the value of `h(a, b)` is E with h's once-assigned locals replaced by their defining expressions and h's parameters
+# replaced by the arguments.  That is ordinary beta-reduction; it is applied to expressions only to COMPARE values
+# (evaluation order / exceptions of the helper are the same as those of the code it replaces and are not judged here).
+_TRUSTED_API = ("ipv8/keyvault/",)        # the signature primitives: recognised by name, never looked into
+
+
+def _local_function_imports(fi: FuncInfo) -> dict:
+    """imports made inside fi, relative ones resolved: local name -> (module, attribute | None)"""
+    out = {}
+    m = fi.module
+    is_pkg = m.relpath.endswith("__init__.py")
+    pkg = m.name.split(".") if is_pkg else m.name.split(".")[:-1]
+    for n in walk_no_nested(fi.node):
+        if isinstance(n, ast.ImportFrom):
+            if n.level:
+                base = pkg[: len(pkg) - (n.level - 1)]
+                mod = ".".join(base + ([n.module] if n.module else []))
+            else:
+                mod = n.module or ""
+            for a in n.names:
+                out[a.asname or a.name] = (mod, a.name)
+    return out
+
+
+def _import_targets(ctx: Ctx, fi: FuncInfo, call: ast.Call) -> list | None:
+    """the function called as `module.function(...)` / through an import made inside fi; None: not such a call"""
+    f = call.func
+    repo = ctx.repo
+    if isinstance(f, ast.Name):
+        if f.id in _local_names(fi):
+            return None
+        li = _local_function_imports(fi)
+        if f.id in li:
+            mod, attr = li[f.id]
+            target = repo.modules.get(mod)
+            r = repo.resolve_name(target, attr) if target is not None and attr else None
+            return [r] if isinstance(r, FuncInfo) else []
+        return None
+    if isinstance(f, ast.Attribute) and isinstance(f.value, ast.Name) and f.value.id not in _local_names(fi):
+        r = repo.resolve_name(fi.module, f.value.id)
+        if r is None and f.value.id in _local_function_imports(fi):
+            mod, attr = _local_function_imports(fi)[f.value.id]
+            sub = repo.modules.get(mod + "." + attr) if attr else None
+            r = ("module", sub) if sub is not None else None
+        if isinstance(r, tuple) and r[0] == "module" and r[1] is not None:
+            g = r[1].functions.get(f.attr)
+            return [g] if isinstance(g, FuncInfo) else []
+    return None
+
+
+def _helper_targets(ctx: Ctx, fi: FuncInfo, call: ast.Call) -> list:
+    """_targets (which follows `module.function(...)` and imports made inside fi), never a constructor"""
+    f = call.func
+    if isinstance(f, ast.Name) and f.id not in _local_names(fi) and f.id not in _local_function_imports(fi) \
+            and isinstance(ctx.repo.resolve_name(fi.module, f.id), ClassInfo):
+        return []                                  # a constructor call: the value is the new object
+    return _targets(ctx, fi, call)
+
+
+def _straight_line_return(h: FuncInfo) -> ast.AST | None:
+    """the returned expression of a straight-line helper (see above), else None"""
+    node = h.node
+    if isinstance(node, ast.Lambda) or h.is_async:
+        return None
+    if node.decorator_list and not all(chain(d) in ("staticmethod", "classmethod") for d in node.decorator_list):
+        return None
+    body = [b for b in node.body if not (isinstance(b, ast.Expr) and isinstance(b.value, ast.Constant))]
+    if not body or not isinstance(body[-1], ast.Return) or body[-1].value is None:
+        return None
+    params = set(h.params())
+    seen = set()
+    for st in body[:-1]:
+        if isinstance(st, (ast.Import, ast.ImportFrom)):
+            # names bound by an import inside the helper are opaque module-level objects, like the helper's globals
+            bound = {(a.asname or a.name).split(".")[0] for a in st.names}
+            if "*" in bound or bound & params or bound & seen or bound & {n.id for n in ast.walk(node) if isinstance(n, ast.Name)
+                                                                       and isinstance(n.ctx, (ast.Store, ast.Del))}:
+                return None
+            continue
+        if isinstance(st, ast.Assign) and len(st.targets) == 1 and isinstance(st.targets[0], ast.Name):
+            name = st.targets[0].id
+        elif isinstance(st, ast.AnnAssign) and isinstance(st.target, ast.Name) and st.value is not None:
+            name = st.target.id
+        else:
+            return None
+        if name in params or name in seen:
+            return None
+        seen.add(name)
+    for n in ast.walk(node):
+        if isinstance(n, (ast.Yield, ast.YieldFrom, ast.Await, ast.NamedExpr, ast.Global, ast.Nonlocal)) \
+                or (isinstance(n, _OWN_SCOPE + (ast.FunctionDef, ast.AsyncFunctionDef, ast.ClassDef)) and n is not node):
+            return None
+    return body[-1].value
+
+
+def _inline_calls(ctx: Ctx, fi: FuncInfo, e, depth: int = 4, _stack: tuple = ()):
+    """
+    copy of expression e (of fi; shared where unchanged) in which every call of a straight-line helper of this repository
+    is replaced by its value in fi's terms, `<record construction>.<field>` / `[i]` by that component, and - inside what
+    was brought in from a helper - module constants of the helper's module by their (integer) value.  Calls that cannot
+    be followed stay as they are.
+    """
+    if depth <= 0:
+        return e
+    repo = ctx.repo
+
+    def value_of_call(n: ast.Call):
+        targets = _helper_targets(ctx, fi, n)
+        if len(targets) != 1:
+            return None
+        h = targets[0]
+        if not isinstance(h, FuncInfo) or h.node is fi.node or h in _stack or h.module.relpath.startswith(_TRUSTED_API):
+            return None
+        if h.name == "__init__":
+            return None
+        ret = _straight_line_return(h)
+        if ret is None:
+            return None
+        decos = [chain(d) for d in h.node.decorator_list]
+        is_method = h.cls is not None and "staticmethod" not in decos
+        by_attr = isinstance(n.func, ast.Attribute)
+        recv = None
+        if is_method:
+            if not by_attr:
+                return None
+            recv = n.func.value
+            if isinstance(recv, ast.Call) and chain(recv.func) == "super":
+                recv = ast.Name(id="self", ctx=ast.Load())
+            if "classmethod" in decos or repo.resolve_class_expr(fi.module, recv) is not None:
+                return None                     # Class.method(obj, ...) / classmethods: not followed
+        bound = _bind_call(n, h, receiver=is_method)
+        if bound is None:
+            return None
+        hp = h.params()
+        mapping = dict(bound)
+        if is_method:
+            if not hp:
+                return None
+            mapping[hp[0]] = recv
+        a = h.node.args
+        named = [x.arg for x in a.posonlyargs + a.args + a.kwonlyargs]
+        defaults = dict(zip([x.arg for x in (a.posonlyargs + a.args)][len(a.posonlyargs + a.args) - len(a.defaults):], a.defaults))
+        defaults.update({x.arg: d for x, d in zip(a.kwonlyargs, a.kw_defaults) if d is not None})
+        for pname in named:
+            if pname not in mapping:
+                d = defaults.get(pname)
+                if not isinstance(d, ast.Constant):
+                    return None
+                mapping[pname] = d
+        x = _expand(h, ret)
+        # the helper's own helpers / records / constants, in the helper's module
+        x = _inline_calls(ctx, h, x, depth - 1, _stack + (fi,))
+        hlocals = _local_names(h)
+        mine = _local_names(fi)
+
+        def fold(m):
+            if isinstance(m, (ast.Name, ast.Call, ast.Attribute, ast.BinOp)) and isinstance(getattr(m, "ctx", None) or ast.Load(), ast.Load) \
+                    and not (isinstance(m, ast.Name) and m.id in hlocals):
+                v = _fold_const(ctx, h.module, h.cls, h, m)
+                if isinstance(v, int) and not isinstance(v, bool):
+                    return ast.copy_location(ast.Constant(value=v), m)
+            return m
+
+        x = _map_bottom_up(x, fold)
+        for name in _free_names(x):
+            if name in hlocals:
+                if name not in mapping or not _is_param_unmodified(h, name):
+                    return None                  # helper state that has no name in the caller
+            elif name in mine:
+                return None                      # a global of the helper spelled like a local of the caller
+        return _subst_names(x, mapping)
+
+    def fn(n):
+        if isinstance(n, ast.Call):
+            v = value_of_call(n)
+            if v is not None:
+                return v
+        sel = _selector(n)
+        if sel is not None and isinstance(strip_cast(sel[0]), ast.Call):
+            comp = _project(ctx, fi, strip_cast(sel[0]), sel[1])
+            if comp is not _NOPROJ:
+                return comp
+        return n
+
+    return _map_bottom_up(e, fn)
+
+
+def _xs_calls(ctx: Ctx, fi: FuncInfo, e: ast.AST | None):
+    """_xs, with the calls of straight-line helpers replaced by their values (see _inline_calls)"""
+    v = _xs(fi, e)
+    if v is None:
+        return None
+    w = _inline_calls(ctx, fi, v)
+    if w is v:
+        return v
+    return _simplify_slices(_slice_objects_to_syntax(fi, _desugar_functional(fi, w)))
+
+
 # ------------------------------------------------------------------------------------------ _verify_signature contract
 class _VSContract:
     """
@@ -1129,7 +1527,7 @@ def _kw_or_pos(call: ast.Call, index: int, name: str):
 
 def _vs_shape(ctx: Ctx, fi: FuncInfo, r: ast.Return) -> dict:
     """One return of a `_verify_signature` definition: where the verdict / remainder are and whether they are the right ones."""
-    v = _xs(fi, r.value) if r.value is not None else None
+    v = _xs_calls(ctx, fi, r.value) if r.value is not None else None
     fields = None
     rec = _record_of(ctx, fi, v) if isinstance(v, ast.Call) else None
     if rec is not None:
@@ -1208,6 +1606,99 @@ def _vs_shape(ctx: Ctx, fi: FuncInfo, r: ast.Return) -> dict:
     return out
 
 
+def _function_returns(fi: FuncInfo) -> list:
+    return [n for n in walk_no_nested(fi.node) if isinstance(n, ast.Return)]
+
+
+def _vs_delegate(ctx: Ctx, fi: FuncInfo, rets: list):
+    """
+    (helper, parameter of the helper -> argument in fi's terms) when this definition of _verify_signature is a thin
+    delegation - its whole body is `return helper(<own parameters / attributes of them>)` - to ONE function of this
+    repository whose value the expression-level analysis could not write out (the helper has branches): the helper is
+    then the definition to examine, its parameters standing for what fi hands it.  None otherwise.
+    """
+    body = [b for b in fi.node.body if not (isinstance(b, ast.Expr) and isinstance(b.value, ast.Constant))]
+    if len(rets) != 1 or body != [rets[0]] or rets[0].value is None:
+        return None
+    call = strip_cast(rets[0].value)
+    if not isinstance(call, ast.Call) or call_name(call) == "is_valid_signature":
+        return None
+    still = _xs_calls(ctx, fi, call)
+    if not isinstance(still, ast.Call) or _record_of(ctx, fi, still) is not None:
+        return None                              # written out: judged as an expression of fi
+    targets = _helper_targets(ctx, fi, call)
+    if len(targets) != 1 or not isinstance(targets[0], FuncInfo):
+        return None
+    h = targets[0]
+    if h.node is fi.node or isinstance(h.node, ast.Lambda) or h.is_async or h.module.relpath.startswith(_TRUSTED_API) \
+            or h.name == "_verify_signature":
+        return None
+    decos = [chain(d) for d in h.node.decorator_list]
+    if any(d not in ("staticmethod",) for d in decos):
+        return None
+    is_method = h.cls is not None and "staticmethod" not in decos
+    if is_method and not (isinstance(call.func, ast.Attribute) and isinstance(call.func.value, ast.Name)
+                          and call.func.value.id == "self"):
+        return None
+    bound = _bind_call(call, h, receiver=is_method)
+    if bound is None:
+        return None
+    for a in bound.values():
+        a = strip_cast(a)
+        base = a.value if isinstance(a, ast.Attribute) else a
+        if not (isinstance(base, ast.Name) and _is_param_unmodified(fi, base.id)):
+            return None
+    return h, bound
+
+
+def _translate_shape(fi: FuncInfo, sh: dict, mapping: dict) -> dict:
+    """a shape of the delegate's return with the roles of ITS parameters expressed as roles of fi's parameters"""
+    out = dict(sh)
+    dp, kp, kk = sh["data_param"], sh["key_param"], sh["key_kind"]
+    out["data_param"] = out["key_param"] = out["key_kind"] = None
+    d = strip_cast(mapping[dp]) if dp in mapping else None
+    if isinstance(d, ast.Name) and _is_param_unmodified(fi, d.id):
+        out["data_param"] = d.id
+    k = strip_cast(mapping[kp]) if kp in mapping else None
+    if isinstance(k, ast.Name) and _is_param_unmodified(fi, k.id):
+        out.update(key_param=k.id, key_kind=kk)
+    elif kk == "keybin" and isinstance(k, ast.Attribute) and k.attr == "public_key_bin" and isinstance(k.value, ast.Name) \
+            and _is_param_unmodified(fi, k.value.id):
+        out.update(key_param=k.value.id, key_kind="auth")
+    return out
+
+
+def _mark_rejecting(shapes: list) -> None:
+    """
+    A return whose verdict component is the literal False / None / 0 hands the callers `invalid`: no handler runs for
+    it, whatever else it carries, so it promises nothing about signed bytes or remainder.  Recognised only where the
+    other returns fix the place of a plain boolean verdict.
+    """
+    known = {(s["verdict_idx"], s["fields"]) for s in shapes if s["vcall"] is not None}
+    if len(known) != 1:
+        return
+    (vi, _fields), = known
+    if not isinstance(vi, int) or any(s["verdict_enc"] is not None for s in shapes):
+        return
+    for s in shapes:
+        v = s["value"]
+        if s["vcall"] is None and isinstance(v, ast.Tuple) and len(v.elts) == 2:
+            x = strip_cast(v.elts[vi])
+            if isinstance(x, ast.Constant) and x.value in (False, None, 0) and not isinstance(x.value, (bytes, str, float)):
+                s["rejecting"] = True
+
+
+def _vs_shapes(ctx: Ctx, fi: FuncInfo, rets: list, depth: int = 0) -> list[dict]:
+    """shapes of the returns of a definition of _verify_signature, followed through a thin delegation"""
+    dele = _vs_delegate(ctx, fi, rets) if depth < 2 else None
+    if dele is not None:
+        h, mapping = dele
+        return [_translate_shape(fi, sh, mapping) for sh in _vs_shapes(ctx, h, _function_returns(h), depth + 1)]
+    shapes = [_vs_shape(ctx, fi, r) for r in rets]
+    _mark_rejecting(shapes)
+    return shapes
+
+
 def _vs_base(ctx: Ctx) -> FuncInfo:
     return ctx.repo.method("EZPackOverlay", "_verify_signature", LC)
 
@@ -1221,7 +1712,7 @@ def _vs_contract(ctx: Ctx) -> _VSContract:
     if len(params) < 3:
         raise AnalysisError("anchor-lost: EZPackOverlay._verify_signature takes the datagram and the key container")
     rets = [n for n in walk_no_nested(fi.node) if isinstance(n, ast.Return)]
-    shapes = [_vs_shape(ctx, fi, r) for r in rets]
+    shapes = [s for s in _vs_shapes(ctx, fi, rets) if not s.get("rejecting")]
     keys = {(s["data_param"], s["key_param"], s["key_kind"], s["verdict_idx"], s["remainder_idx"], s["fields"],
              s["verdict_enc"]) for s in shapes}
     vs = None
@@ -1257,6 +1748,18 @@ def _check_auth_unpack(ctx: Ctx, fi: FuncInfo, auth_expr: ast.AST, data_name: st
     return _is_auth_unpack(ctx, fi, val, idx, data_name, 2)
 
 
+def _resolve_in_function(ctx: Ctx, fi: FuncInfo, name: str):
+    """what global `name` denotes inside fi: an import made inside the function wins over the module's bindings"""
+    if name in _local_names(fi):
+        return None
+    li = _local_function_imports(fi)
+    if name in li:
+        mod, attr = li[name]
+        target = ctx.repo.modules.get(mod)
+        return ctx.repo.resolve_name(target, attr) if target is not None and attr else None
+    return ctx.repo.resolve_name(fi.module, name)
+
+
 def _is_auth_unpack(ctx: Ctx, fi: FuncInfo, val, idx, data_name: str, depth: int) -> bool:
     """is component idx of the value of call `val` the authentication header decoded from the datagram parameter at
     offset 23?  (directly, spelled through functools.partial, or by a helper all of whose returns are such a decode)"""
@@ -1269,9 +1772,9 @@ def _is_auth_unpack(ctx: Ctx, fi: FuncInfo, val, idx, data_name: str, depth: int
         a0, a1, off = arg(call, 0, "serializable"), arg(call, 1, "data"), arg(call, 2, "offset")
         ok = (a0 is not None and chain(a0) == "BinMemberAuthenticationPayload"
               and isinstance(a1, ast.Name) and a1.id == data_name and _is_param_unmodified(fi, data_name)
-              and off is not None and ctx.repo.resolve_const(fi.module, off, fi.cls) == 23)
+              and off is not None and _const(ctx, fi, off) == 23)
         if ok:
-            r = ctx.repo.resolve_name(fi.module, "BinMemberAuthenticationPayload")
+            r = _resolve_in_function(ctx, fi, "BinMemberAuthenticationPayload")
             ok = isinstance(r, ClassInfo) and r.module.relpath == "ipv8/messaging/payload_headers.py"
         return ok
     if depth <= 0:
@@ -1407,11 +1910,91 @@ def _self_class(ctx: Ctx, fi: FuncInfo) -> ClassInfo | None:
                         return c
     if fi.module.relpath == LC and pos[0].arg == "self":
         return ctx.repo.try_cls("EZPackOverlay", LC)
-    return None
+    # a plain function that was followed from a caller which handed it its own overlay (see _object_function)
+    return getattr(fi, "_c01_self_cls", None)
+
+
+def _is_function(t, f: FuncInfo) -> bool:
+    """is call target t function f (or the copy of f with its object parameter spelled `self`, see _object_function)?"""
+    return isinstance(t, FuncInfo) and (t.node is f.node or getattr(t, "_c01_origin", None) is f.node)
+
+
+def _object_function(ctx: Ctx, fi: FuncInfo, call: ast.Call, h: FuncInfo) -> FuncInfo:
+    """
+    A method turned into a module-level function that takes the object: `h(self, ...)` called with the caller's own overlay
+    as first argument.  Inside h the first parameter then IS that overlay; when it has another name (`overlay`,
+    `community`) the rules - which recognise `self.<...>` chains - are given an alpha-renamed copy of h whose first
+    parameter is spelled `self` (renaming a parameter that is never re-bound, in a function that uses no other `self`,
+    changes nothing).  The class of that parameter is the class of the caller's overlay.
+    """
+    if h.cls is not None or isinstance(h.node, ast.Lambda) or not isinstance(call.func, (ast.Name, ast.Attribute)):
+        return h
+    a = h.node.args
+    pos = a.posonlyargs + a.args
+    if not pos or not call.args or isinstance(call.args[0], ast.Starred):
+        return h
+    first = strip_cast(call.args[0])
+    if not (isinstance(first, ast.Name) and first.id == "self" and fi.params() and fi.params()[0] == "self"
+            and not local_defs(fi, "self")):
+        return h
+    owner = _self_class(ctx, fi)
+    if owner is None:
+        return h
+    me = pos[0].arg
+    if me == "self":
+        if getattr(h, "_c01_self_cls", None) is None and pos[0].annotation is None:
+            try:
+                h._c01_self_cls = owner           # type: ignore[attr-defined]
+            except Exception:  # noqa: BLE001
+                pass
+        return h
+    cache = getattr(ctx, "_c01_object_functions", None)
+    if cache is None:
+        cache = ctx._c01_object_functions = {}       # type: ignore[attr-defined]
+    key = id(h.node)
+    if key in cache:
+        return cache[key][1]
+    out = h
+    nested = [n for n in ast.walk(h.node) if isinstance(n, (ast.FunctionDef, ast.AsyncFunctionDef, ast.ClassDef)) and n is not h.node]
+    rebinds = any((isinstance(n, ast.Name) and n.id == me and isinstance(n.ctx, (ast.Store, ast.Del)))
+                  or (isinstance(n, ast.arg) and n.arg == me and n is not pos[0])
+                  or (isinstance(n, (ast.Global, ast.Nonlocal)) and me in n.names)
+                  or (isinstance(n, ast.ExceptHandler) and n.name == me)
+                  or (isinstance(n, ast.alias) and (n.asname or n.name).split(".")[0] == me)
+                  for n in ast.walk(h.node))
+    uses_self = any((isinstance(n, ast.Name) and n.id == "self") or (isinstance(n, ast.arg) and n.arg == "self")
+                    for n in ast.walk(h.node))
+    if not nested and not rebinds and not uses_self and "self" not in h.module.constants and "self" not in h.module.imports:
+        from ..model import clone, set_parents
+        node = clone(h.node)
+        for n in ast.walk(node):
+            if isinstance(n, ast.Name) and n.id == me:
+                n.id = "self"
+            elif isinstance(n, ast.arg) and n.arg == me:
+                n.arg = "self"
+        set_parents(node)
+        node._parent = parent(h.node)            # type: ignore[attr-defined]
+        out = FuncInfo(h.name, h.qualname, node, h.module, None)
+        out._c01_origin = h.node                  # type: ignore[attr-defined]
+        node._info = out                          # type: ignore[attr-defined]
+        if (node.args.posonlyargs + node.args.args)[0].annotation is None:
+            out._c01_self_cls = owner             # type: ignore[attr-defined]
+    cache[key] = (h.node, out)
+    return out
 
 
 def _targets(ctx: Ctx, fi: FuncInfo, call: ast.Call) -> list[FuncInfo]:
-    """repo.resolve_call, plus `self.<method>(...)` inside a plain function whose `self` is an overlay instance"""
+    """repo.resolve_call, plus `self.<method>(...)` inside a plain function whose `self` is an overlay instance, plus
+    functions that are handed the caller's overlay (see _object_function)"""
+    out = _targets0(ctx, fi, call)
+    if not out:
+        out = _import_targets(ctx, fi, call) or []
+    if out and isinstance(call.func, (ast.Name, ast.Attribute)) and call.args and all(isinstance(t, FuncInfo) and t.cls is None for t in out):
+        out = [_object_function(ctx, fi, call, t) for t in out]
+    return out
+
+
+def _targets0(ctx: Ctx, fi: FuncInfo, call: ast.Call) -> list[FuncInfo]:
     f = call.func
     if fi.cls is None and isinstance(f, ast.Attribute) and isinstance(f.value, ast.Name) and fi.params() \
             and f.value.id == fi.params()[0] and not local_defs(fi, f.value.id):
@@ -1574,7 +2157,8 @@ def _unpacker_calls(ctx: Ctx, fi: FuncInfo, data_name: str, replay: bool = True,
         if _is_vs_call(c) or not isinstance(c.func, (ast.Name, ast.Attribute)) or any(c is x for x in skip):
             continue
         if isinstance(c.func, ast.Attribute) and not (isinstance(c.func.value, ast.Name) and fi.params()
-                                                      and c.func.value.id == fi.params()[0]):
+                                                      and c.func.value.id == fi.params()[0]) \
+                and not _import_targets(ctx, fi, c):            # `<module>.<function>(...)` is followed as well
             continue
         if isinstance(c.func, ast.Name) and (c.func.id in fi.params() or local_defs(fi, c.func.id)):
             continue
@@ -1895,6 +2479,11 @@ def _check_unpack_auth(ctx: Ctx, fi: FuncInfo, strict_first: bool = True) -> dic
                         return i
             return -1
         idx, kidx = find(ver.is_auth), find(ver.is_key)
+        if comps is None and ver.vcall is None and ver.ucalls and _from_calls(fi, r.value, ver.ucalls, None):
+            # the whole result of the verifying helper is handed on: its components are where that helper has them
+            idx = (ver.auth_idx if ver.has_auth else -1)
+            kidx = -1 if ver.key_idx is None else (None if ver.key_idx == "whole" else ver.key_idx)
+            names = tuple(ver.fields) if ver.fields else None
         where.add((idx, kidx, names))
         if strict_first:
             ctx.check(idx == 0, "peer-from-auth-key", fi, r, f"{label} returns the auth payload that was verified",
@@ -1995,7 +2584,47 @@ def _payload_source(ctx: Ctx, fi: FuncInfo, site: ast.AST, vcall: ast.Call, labe
                   "payloads handed to the handler are decoded from bytes other than the signed remainder")
 
 
-def _peer_arg(ctx: Ctx, fi: FuncInfo, call: ast.Call, ver: "_Verified", addr_name: str, label: str, effective=None) -> None:
+def _peer_from_helper(ctx: Ctx, fi: FuncInfo, ver: "_Verified", peer_arg: ast.AST, addr_name: str, label: str, depth: int) -> bool:
+    idx = None
+    for i in range(6):
+        if _from_calls(fi, peer_arg, ver.ucalls, i, fields=ver.fields):
+            idx = i
+            break
+    if idx is None:
+        return False
+    for c in ver.ucalls:
+        targets = _targets(ctx, fi, c)
+        if not targets:
+            return False
+        for h in targets:
+            sm = _unpacker_summary(ctx, h)
+            if sm is None:
+                return False
+            rets = [n for n in walk_no_nested(h.node) if isinstance(n, ast.Return) and n.value is not None]
+            if not rets:
+                return False
+            for r in rets:
+                sub = _quiet(ctx)
+                try:
+                    hver = _check_verified_site(sub, h, r, h.name, sm["data_param"], "return", "")
+                except AnalysisError:
+                    return False
+                if hver is None or sub.findings:
+                    return False
+                cs = _components(ctx, h, _expand(h, r.value))
+                if cs is None or not cs[2] or idx >= len(cs[0]) or isinstance(cs[0][idx], ast.Starred):
+                    return False
+                # the component plays the role of the peer argument of a call `f(<self>, <component>)`
+                fake = ast.Call(func=ast.Name(id="<handler>", ctx=ast.Load()),
+                                args=[ast.Name(id="self", ctx=ast.Load()), cs[0][idx]], keywords=[])
+                _peer_arg(sub, h, fake, hver, addr_name, label, _depth=depth + 1, _site=r)
+                if sub.findings:
+                    return False
+    return True
+
+
+def _peer_arg(ctx: Ctx, fi: FuncInfo, call: ast.Call, ver: "_Verified", addr_name: str, label: str, effective=None,
+              _depth: int = 0, _site=None) -> None:
     """effective: the call as it is really made when `call` applies a functools.partial of the handler"""
     args = (effective or call).args
     peer_arg = args[1] if len(args) >= 2 else None
@@ -2007,7 +2636,7 @@ def _peer_arg(ctx: Ctx, fi: FuncInfo, call: ast.Call, ver: "_Verified", addr_nam
         """e (expanded) is the registry entry stored under the verified key or a fresh Peer built from the verified key"""
         if isinstance(e, ast.Call) and chain(e.func) == "Peer":
             k = arg(e, 0)
-            return k is not None and ver.is_key(k) and isinstance(ctx.repo.resolve_name(fi.module, "Peer"), ClassInfo)
+            return k is not None and ver.is_key(k) and isinstance(_resolve_in_function(ctx, fi, "Peer"), ClassInfo)
         if isinstance(e, ast.Call) and chain(e.func) == registry + ".get":
             k = arg(e, 0)
             return k is not None and ver.is_key(k) and len(e.args) == 1 and not e.keywords
@@ -2025,7 +2654,11 @@ def _peer_arg(ctx: Ctx, fi: FuncInfo, call: ast.Call, ver: "_Verified", addr_nam
         # every value the argument can take (`a or b`, conditional expression, a local assigned on several branches)
         good = [good_value(_desugar_functional(fi, _expand(fi, alt))) for alt in _alternatives(fi, peer_arg)]
         ok = bool(good) and all(good)
-    ctx.check(ok, "peer-from-auth-key", fi, call,
+        if not ok and ver.vcall is None and ver.ucalls and _depth < 2:
+            # the peer is a component of what the verifying helper returned: the same question, asked of every return
+            # of that helper in the helper's own terms (its verdict, its key)
+            ok = _peer_from_helper(ctx, fi, ver, peer_arg, addr_name, label, _depth)
+    ctx.check(ok, "peer-from-auth-key", fi, _site if _site is not None else call,
               f"{label}: peer argument is verified_by_public_key_bin.get(K) / [K] or Peer(K, addr) with K = auth.public_key_bin",
               why)
 
@@ -2133,12 +2766,34 @@ def rule_effects_after_verdict(ctx: Ctx) -> None:
         if len(o.params()) >= 3:
             todo.append((o, o.params()[2], o.qualname))
     n_sites = 0
+    examined = set()
     for fi, data_name, label in todo:
+        if id(fi.node) in examined:
+            continue
+        examined.add(id(fi.node))
         cfg = ctx.cfg(fi)
+        verifying = None
         for site, what in _registry_effects(ctx, fi):
             nodes = [n for n in cfg.nodes_for(site) if cfg.reachable(n)]
             if not nodes:
                 continue
+            if isinstance(site, ast.Call) and "(...)` runs " in what:
+                # the change is made inside a helper.  When that helper is itself a verifying one (returns only after a
+                # positive verdict on the datagram it is given - fi's own datagram), the change is judged INSIDE it,
+                # against its own verdict, exactly as it is judged here for the wrappers
+                if verifying is None:
+                    verifying = {id(c): c for c, _k in _unpacker_calls(ctx, fi, data_name)}
+                if id(site) in verifying:
+                    moved = []
+                    for t in _targets(ctx, fi, site):
+                        sm = _unpacker_summary(ctx, t)
+                        if sm is None:
+                            moved = None
+                            break
+                        moved.append((t, sm["data_param"], f"{label} -> {t.qualname}"))
+                    if moved:
+                        todo.extend(moved)
+                        continue
             n_sites += 1
             facts = _site_facts(ctx, fi, cfg, site)
             vcall, _asserted = _dominating_verification(ctx, fi, facts, site)
@@ -2154,17 +2809,35 @@ def rule_effects_after_verdict(ctx: Ctx) -> None:
                  nontrivial=n_sites > 0)
 
 
-def _check_vs_definition(ctx: Ctx, fi: FuncInfo, skip=(), override: bool = False) -> list[dict]:
+def _check_vs_definition(ctx: Ctx, fi: FuncInfo, skip=(), override: bool = False, _depth: int = 0) -> list[dict]:
     """whole-prefix / payload-from-signed-bytes for one definition of _verify_signature; -> the shapes of its returns"""
     rets = [n for n in walk_no_nested(fi.node) if isinstance(n, ast.Return) and n not in skip]
     ctx.anchor(rets, f"{fi.qualname} return")
+    dele = _vs_delegate(ctx, fi, rets) if _depth < 2 and not skip else None
+    if dele is not None:
+        # thin delegation: the delegate is the definition; what it is handed decides which parameter plays which role
+        h, mapping = dele
+        inner = _check_vs_definition(ctx, h, override=override, _depth=_depth + 1)
+        shapes = [_translate_shape(fi, sh, mapping) for sh in inner]
+        linked = all(s["data_param"] is not None and s["key_param"] is not None and s["data_param"] != s["key_param"]
+                     for s in shapes if s["vcall"] is not None and not s.get("rejecting"))
+        ctx.check(linked, "whole-prefix", fi, rets[0],
+                  f"{fi.qualname} delegates to {h.qualname} with its own datagram and key parameters",
+                  f"{fi.qualname} delegates to {h.qualname} but does not hand it its own datagram / the key carried in it "
+                  "in the places where that function verifies them")
+        return shapes
+    all_shapes = [_vs_shape(ctx, fi, r) for r in rets]
+    _mark_rejecting(all_shapes)
     shapes = []
-    for r in rets:
+    for r, sh in zip(rets, all_shapes):
         # all comparisons below are made on fully expanded expressions (single-assignment locals substituted, slices of
         # slices composed), so it does not matter which sub-expressions were hoisted into locals, in which order the
         # verdict and the remainder are returned, or whether the remainder is cut from the datagram or from the signed part
-        sh = _vs_shape(ctx, fi, r)
         shapes.append(sh)
+        if sh.get("rejecting"):
+            ctx.instance("whole-prefix", fi.where, f"{fi.qualname}: `{norm(r)}` hands back `invalid` (no handler runs)",
+                         line=r.lineno)
+            continue
         vc = sh["vcall"]
         data_name, key_param = sh["data_param"], sh["key_param"]
         good = False
@@ -2225,7 +2898,7 @@ def _check_vs_definition(ctx: Ctx, fi: FuncInfo, skip=(), override: bool = False
             up_ok = neg_len(up) if key_txt is not None else (
                 isinstance(up, ast.UnaryOp) and isinstance(up.op, ast.USub) and isinstance(up.operand, ast.Call)
                 and call_name(up.operand) == "get_signature_length")
-            lo_ok = lo is not None and carried is not None and _sum_terms(lo) == (2, [f"len({carried})"])
+            lo_ok = lo is not None and carried is not None and _sum_terms(_fold_ints(ctx, fi, lo)) == (2, [f"len({carried})"])
             rem_ok = up_ok and lo_ok
         ctx.check(rem_ok, "payload-from-signed-bytes", fi, r,
                   "remainder = data[2+len(key) : -L] (inside the signed bytes; the auth header is skipped exactly)",
@@ -2260,7 +2933,7 @@ def rule_verify_signature(ctx: Ctx) -> None:
                         s["verdict_enc"])
                        == (bp.index(vs.data_param), bp.index(vs.key_param), vs.key_kind, vs.verdict_idx, vs.remainder_idx,
                            vs.verdict_enc)
-                       for s in shapes)
+                       for s in shapes if not s.get("rejecting"))
             ctx.check(same, "whole-prefix", o, o.node, f"{o.qualname}: same parameter / result layout as the reviewed method",
                       "an override of _verify_signature returns verdict / remainder in other places than the callers read them")
 
@@ -2503,7 +3176,7 @@ def _is_single_byte(ctx: Ctx, fi: FuncInfo, x: ast.AST) -> bool:
     f = x.func
     if isinstance(f, ast.Attribute) and f.attr == "to_bytes" and x.args:
         n = x.args[1] if _builtin_chain(fi, f.value) == "int" and len(x.args) > 1 else x.args[0]
-        return ctx.repo.resolve_const(fi.module, n, fi.cls) == 1
+        return _const(ctx, fi, n) == 1
     if _imported_as(fi, f, "struct", ("pack",)) and len(x.args) == 2:
         return _one_byte_format(ctx.repo.resolve_const(fi.module, x.args[0], fi.cls))
     if isinstance(f, ast.Attribute) and f.attr == "pack" and len(x.args) == 1 and not x.keywords:
@@ -2525,15 +3198,34 @@ def _is_single_byte(ctx: Ctx, fi: FuncInfo, x: ast.AST) -> bool:
     return False
 
 
+def _called_from_overlay(ctx: Ctx, f: FuncInfo, depth: int = 2) -> bool:
+    """is module-level function f called (by name) from a method of an overlay class, directly or through such functions?"""
+    for _m, g, call2 in ctx.repo.callers_of_name(f.name):
+        if g is None or g.node is f.node:
+            continue
+        if not any(_is_function(t, f) for t in _targets(ctx, g, call2)):
+            continue
+        if g.cls is not None and g.cls.is_subclass_of("Overlay"):
+            return True
+        if g.cls is None and depth > 0 and _called_from_overlay(ctx, g, depth - 1):
+            return True
+    return False
+
+
 def rule_sign_side(ctx: Ctx) -> None:
     repo = ctx.repo
-    from ..model import enclosing_stmt
+    from ..model import enclosing_function, enclosing_stmt
     sites = []                          # (function, expression that yields the signature, expression that was signed)
+    pre_appended = set()                # id(call) of helper calls whose value is the signed buffer WITH the signature appended
     for fi in repo.all_functions():
         for c in calls(fi, "create_signature"):
             if fi.cls is not None and fi.cls.name == "ECCrypto":
                 continue
             if fi.cls is not None and (fi.cls.is_subclass_of("Overlay")):
+                sites.append((fi, c, arg(c, 1, "data"), 0))
+            elif fi.cls is None and not isinstance(fi.node, ast.Lambda) and enclosing_function(fi.node) is None \
+                    and not fi.module.relpath.startswith(_TRUSTED_API) and _called_from_overlay(ctx, fi):
+                # signing code that was moved out of the overlay into a module-level function it calls
                 sites.append((fi, c, arg(c, 1, "data"), 0))
         if fi.cls is not None and fi.cls.is_subclass_of("Overlay") and any(
                 isinstance(n, ast.Attribute) and n.attr == "create_signature" and not (
@@ -2576,32 +3268,69 @@ def rule_sign_side(ctx: Ctx) -> None:
 
         # where the signature is appended: `B += sig`, `... = B + sig` / `return B + sig`, sig being the call itself, a
         # conditional expression around it, or a local that holds it
-        appended_to, returned, lost = _signature_flow(fi, cfg, c)
-        if returned and not appended_to and not lost and depth < 2 and fi.cls is not None \
-                and isinstance(strip_cast(signed), ast.Name) and _is_param_unmodified(fi, strip_cast(signed).id):
-            # a signing helper: returns the signature over its own parameter; what matters is what its callers hand in
-            # and where they put the result
-            pname = strip_cast(signed).id
+        handed_on = id(c) in pre_appended
+        appended_to, returned, lost = ([], False, False) if handed_on else _signature_flow(fi, cfg, c)
+        signed_param = strip_cast(signed).id if signed is not None and isinstance(strip_cast(signed), ast.Name) \
+            and _is_param_unmodified(fi, strip_cast(signed).id) else None
+        # a signing helper: signs its own parameter and returns the signature, or that parameter with the signature
+        # appended (and nothing else); what matters is what its callers hand in and - for the bare signature - where they
+        # put the result
+        appends_own = False
+        if signed_param is not None and appended_to and not lost and not handed_on:
+            rets = [n for n in walk_no_nested(fi.node) if isinstance(n, ast.Return)]
+            appends_own = bool(rets)
+            for ns, buf in appended_to:
+                per = [_concat_parts_at(cfg, fi, n, buf) for n in ns]
+                got = None if (not per or any(p is None for p in per)) else [a for p in per for a in p]
+                appends_own = appends_own and got is not None and texts(got) == [(signed_param,)]
+            # every value the helper returns is that buffer + signature, or the untouched parameter (`if sig ... else packet`)
+            for r in rets:
+                alts = _alternatives(fi, r.value) if r.value is not None else []
+                for v in alts:
+                    v = strip_cast(v)
+                    if isinstance(v, ast.Name) and v.id == signed_param:
+                        continue
+                    if not any(x is c for x in ast.walk(v)) and not (
+                            isinstance(v, ast.Name) and any(buf is not None and isinstance(strip_cast(buf), ast.Name)
+                                                            and strip_cast(buf).id == v.id for _ns, buf in appended_to)):
+                        appends_own = False
+                if not alts:
+                    appends_own = False
+        if ((returned and not appended_to and not lost) or appends_own) and depth < 2 and signed_param is not None \
+                and (fi.cls is not None or enclosing_function(fi.node) is None):
+            pname = signed_param
             callers = []
+            n_uses = 0
             for _m, g, call2 in repo.callers_of_name(fi.name):
                 if g is None or g.node is fi.node:
                     continue
-                if not any(t.node is fi.node for t in _targets(ctx, g, call2)):
+                if not any(_is_function(t, fi) for t in _targets(ctx, g, call2)):
                     continue
-                is_method = not any(chain(d) == "staticmethod" for d in fi.node.decorator_list)
+                is_method = fi.cls is not None and not any(chain(d) == "staticmethod" for d in fi.node.decorator_list)
                 bound = _bind_call(call2, fi, receiver=is_method)
                 callers.append((g, call2, bound.get(pname) if bound else None, depth + 1))
-            uses = [n for _m, _g, n in repo.attribute_uses(fi.name)]
-            if callers and len(uses) == len(callers):
-                ctx.instance("sign-covers-all", fi.where, f"{fi.qualname}: signs its parameter `{pname}` and returns the "
-                             f"signature; judged at its {len(callers)} call site(s)", line=st.lineno)
+            if fi.cls is not None:
+                n_uses = len([n for _m, _g, n in repo.attribute_uses(fi.name)])
+            else:
+                # a module-level function: every mention of its name outside import statements is one of these calls
+                for m in repo.modules.values():
+                    for n in ast.walk(m.tree):
+                        if (isinstance(n, ast.Name) and n.id == fi.name and isinstance(n.ctx, ast.Load)) or \
+                                (isinstance(n, ast.Attribute) and n.attr == fi.name):
+                            n_uses += 1
+            if callers and n_uses == len(callers):
+                ctx.instance("sign-covers-all", fi.where, f"{fi.qualname}: signs its parameter `{pname}` and returns "
+                             + ("that buffer with the signature appended" if appends_own else "the signature")
+                             + f"; judged at its {len(callers)} call site(s)", line=st.lineno)
+                if appends_own:
+                    pre_appended.update(id(call2) for _g, call2, _a, _d in callers)
                 sites.extend(callers)
                 continue
         signed_alts = None
         if signed is not None and nodes:
             per = [_concat_parts_at(cfg, fi, n, signed) for n in nodes]
             signed_alts = None if any(p is None for p in per) else [a for p in per for a in p]
-        if signed_alts and appended_to and not lost:
+        if signed_alts and (handed_on or (appended_to and not lost)):
             same = True
             for ns, buf in appended_to:
                 per = [_concat_parts_at(cfg, fi, n, buf) for n in ns]
@@ -2892,6 +3621,68 @@ def _transparent_decorator(deco: FuncInfo) -> bool:
     return shape and len(rets) == 1 and rets[0].value is c
 
 
+def _is_effect_call(c: ast.Call) -> bool:
+    """the calls that the classification of a hand-written handler treats as effects"""
+    ch = chain(c.func) or ""
+    return ch.startswith(("self.network.", "self.endpoint.", "Peer")) or ch in ("self.ez_send", "self.create_introduction_response")
+
+
+def _guard_decorator(ctx: Ctx, deco: FuncInfo, applied_with_args: bool) -> bool:
+    return _guard_wrapper(ctx, deco, applied_with_args) is not None
+
+
+def _guard_wrapper(ctx: Ctx, deco: FuncInfo, applied_with_args: bool):
+    """(the wrapper closure, the name it calls the decorated function by) when the decorator is a guard, else None:
+
+    `@deco` / `@deco(...)` is a GUARD around the function it decorates: what it puts in the function's place is a closure
+    that can reach the function only by `f(<its own parameters, unchanged, in order>)` - it may decide not to call it
+    (drop, log, hold a lock around the call), it cannot hand it other arguments - and that itself makes none of the
+    calls that count as effects of a handler.  Whatever class the decorated function has (authenticated by a verifying
+    decorator below this one, raw, ...), the function is entered with exactly the arguments the wrapper was entered with,
+    so the class is that of the decorated function.
+    """
+    if deco.module.relpath == LC and deco.name in (AUTH_DECOS | UNSIGNED_DECOS):
+        return None
+    d = _returned_function(ctx, deco) if applied_with_args else deco
+    if d is None or isinstance(d.node, ast.Lambda):
+        return None
+    dparams = d.params()[1:] if (d.cls is not None and d.name == "__call__") else d.params()
+    if len(dparams) != 1 or local_defs(d, dparams[0]):
+        return None
+    fname = dparams[0]
+    w = _returned_function(ctx, d)
+    if w is None or isinstance(w.node, ast.Lambda) or w.node.decorator_list and not all(
+            isinstance(x, ast.Call) and call_name(x) == "wraps" for x in w.node.decorator_list):
+        return None
+    a = w.node.args
+    if a.kwonlyargs or a.posonlyargs or a.defaults:
+        return None
+    wparams = w.params()
+    if fname in wparams or any(local_defs(w, p) for p in wparams) or fname in _local_names(w):
+        return None
+    expect = [x.arg for x in a.args] + (["*" + a.vararg.arg] if a.vararg else [])
+    n_calls = 0
+    for n in ast.walk(w.node):
+        if isinstance(n, ast.Name) and n.id == fname:
+            c = parent(n)
+            if not (isinstance(c, ast.Call) and c.func is n):
+                return None                    # the function escapes (stored, handed on): not followed
+            got = [("*" + x.value.id) if isinstance(x, ast.Starred) and isinstance(x.value, ast.Name)
+                   else x.id if isinstance(x, ast.Name) else None for x in c.args]
+            kws = [(k.arg, k.value.id if isinstance(k.value, ast.Name) else None) for k in c.keywords]
+            if got != expect or kws != ([(None, a.kwarg.arg)] if a.kwarg else []):
+                return None
+            n_calls += 1
+        if isinstance(n, ast.Call) and _is_effect_call(n):
+            return None
+        if isinstance(n, (ast.FunctionDef, ast.AsyncFunctionDef, ast.Lambda)) and n is not w.node:
+            return None
+        if isinstance(n, (ast.Attribute, ast.Subscript)) and isinstance(n.ctx, (ast.Store, ast.Del)):
+            # the wrapper may not edit what it hands on (self.<attr> = ... / data[...] = ...)
+            return None
+    return (w, fname) if n_calls >= 1 else None
+
+
 def classify_handler(ctx: Ctx, fi: FuncInfo) -> str:
     decos = list(fi.node.decorator_list)
     while decos:
@@ -2908,6 +3699,9 @@ def classify_handler(ctx: Ctx, fi: FuncInfo) -> str:
                 return "unsigned"
             if target.name == "unpack_cell":
                 return "cell"
+            if target.cls is None and _guard_decorator(ctx, target, isinstance(d, ast.Call)):
+                decos.pop(0)   # a guard: the decorated function is entered with the wrapper's own arguments or not at all
+                continue
         return f"unknown-decorator:{name}"
     # manual: authenticated iff all effects are reached only after a completed _ez_unpack_auth
     # (or a helper of the overlay that itself returns only after one / after a positive verdict: followed, see
@@ -2947,8 +3741,7 @@ def classify_handler(ctx: Ctx, fi: FuncInfo) -> str:
     if not ucalls:
         return "raw"
     unodes = [n for c in ucalls for n in cfg.nodes_for(c)]
-    effects = [c for c in calls(fi) if (chain(c.func) or "").startswith(("self.network.", "self.endpoint.", "Peer"))
-               or chain(c.func) in ("self.ez_send", "self.create_introduction_response")]
+    effects = [c for c in calls(fi) if _is_effect_call(c)]
     if not effects:
         return "raw"
     for e in effects:
@@ -3326,20 +4119,37 @@ def _dispatch_sites(ctx: Ctx, fi: FuncInfo, cfg) -> list[tuple[ast.Call, list[as
             out.append((c, list(c.args)))
             continue
         f = c.func
-        if not (isinstance(f, ast.Attribute) and isinstance(f.value, ast.Name) and f.value.id == "self"):
+        as_method = isinstance(f, ast.Attribute) and isinstance(f.value, ast.Name) and f.value.id == "self"
+        # a helper of the overlay: a method called on self, or a plain function that is handed the overlay (`self`)
+        as_function = isinstance(f, (ast.Name, ast.Attribute)) and not as_method and \
+            any(isinstance(a, ast.Name) and a.id == "self" for a in list(c.args) + [k.value for k in c.keywords])
+        if not (as_method or as_function) or "self" not in fi.params() or local_defs(fi, "self"):
             continue
         targets = _targets(ctx, fi, c)
         if not targets or len(targets) > 3:
             continue
         for t in targets:
-            if t.node is fi.node or t.cls is None:
+            if not isinstance(t, FuncInfo) or t.node is fi.node or isinstance(t.node, ast.Lambda):
                 continue
-            bound = _bind_call(c, t, receiver=True)
+            is_method = t.cls is not None and not any(chain(d) == "staticmethod" for d in t.node.decorator_list)
+            if as_method != is_method:
+                continue
+            bound = _bind_call(c, t, receiver=is_method)
             if bound is None:
                 continue
+            extra = _bound_varargs(c, t, receiver=is_method)
+            if is_method:
+                me = t.params()[0] if t.params() else None
+            else:
+                # the parameter(s) of the function that hold the overlay
+                mine = [p for p, a in bound.items() if isinstance(a, ast.Name) and a.id == "self" and _is_param_unmodified(t, p)]
+                me = mine[0] if len(mine) == 1 else None
+            if me is None or not _is_param_unmodified(t, me):
+                continue
+            own_map = f"{me}.decode_map"
             for c2 in calls(t):
                 f2 = strip_cast(c2.func)
-                from_map = any(mentions(a, "self.decode_map") for a in _alternatives(t, c2.func))
+                from_map = any(mentions(a, own_map) for a in _alternatives(t, c2.func))
                 from_param = False
                 if isinstance(f2, ast.Name) and _is_param_unmodified(t, f2.id) and f2.id in bound:
                     given = bound[f2.id]
@@ -3350,6 +4160,14 @@ def _dispatch_sites(ctx: Ctx, fi: FuncInfo, cfg) -> list[tuple[ast.Call, list[as
                     continue
                 handed = []
                 for x in c2.args:
+                    if isinstance(x, ast.Starred):
+                        # `handler(*args)` with args the helper's own, never re-assigned `*args`: the handler is given
+                        # exactly the surplus positional arguments of the call of the helper
+                        sv = strip_cast(x.value)
+                        if extra is not None and t.node.args.vararg is not None and isinstance(sv, ast.Name) \
+                                and sv.id == t.node.args.vararg.arg and _is_param_unmodified(t, sv.id):
+                            handed.extend(extra)
+                        continue
                     x = strip_cast(resolve(t, x))
                     if isinstance(x, ast.Name) and _is_param_unmodified(t, x.id) and x.id in bound:
                         handed.append(bound[x.id])
@@ -3414,7 +4232,16 @@ def rule_own_prefix(ctx: Ctx) -> None:
         inner = getattr(ctx, "_c01_inner_sites", {}).get(id(c), [])
         ok, facts, undecided = _own_prefix_checked(ctx, top, top_cfg, c, hargs)
         if not ok and inner:
-            sub = [_own_prefix_checked(ctx, t, ctx.cfg(t), c2, list(c2.args)) for t, c2 in inner]
+            sub = []
+            for t, c2 in inner:
+                r = _own_prefix_checked(ctx, t, ctx.cfg(t), c2, list(c2.args))
+                if not r[0]:
+                    # the comparison may sit in a guard decorator of the helper: the helper's body (and with it the
+                    # handler call) is entered only through `f(<wrapper's own parameters>)` inside the wrapper
+                    g = _own_prefix_in_guards(ctx, t, c2)
+                    if g is not None and g[0]:
+                        r = g
+                sub.append(r)
             if all(r[0] for r in sub):
                 ok, facts, undecided = True, [f for r in sub for f in r[1]], None
             else:
@@ -3427,6 +4254,48 @@ def rule_own_prefix(ctx: Ctx) -> None:
                   "22-byte prefix with the overlay's own prefix: a datagram signed for another overlay is accepted here "
                   "(cross-overlay replay; the signer becomes a verified peer of an overlay it never addressed)",
                   [str(f) for f in facts])
+
+
+def _guard_wrappers_of(ctx: Ctx, t: FuncInfo) -> list | None:
+    """[(wrapper, name of the decorated function in it)] for the decorators of t when ALL of them are guards, else None"""
+    out = []
+    for d in t.node.decorator_list:
+        name = chain(d.func) if isinstance(d, ast.Call) else chain(d)
+        target = ctx.repo.resolve_name(t.module, name) if name and "." not in name else None
+        g = _guard_wrapper(ctx, target, isinstance(d, ast.Call)) if isinstance(target, FuncInfo) and target.cls is None else None
+        if g is None:
+            return None
+        out.append(g)
+    return out
+
+
+def _own_prefix_in_guards(ctx: Ctx, t: FuncInfo, c2: ast.Call):
+    """_own_prefix_checked for handler call c2 of helper t, decided at the call of t inside one of its guard decorators"""
+    guards = _guard_wrappers_of(ctx, t)
+    if not guards:
+        return None
+    tpos = [x.arg for x in t.node.args.posonlyargs + t.node.args.args]
+    for w, fname in guards:
+        if not w.params() or w.params()[0] != "self" or not tpos or tpos[0] != "self":
+            continue
+        fcalls = [n for n in ast.walk(w.node) if isinstance(n, ast.Call) and isinstance(n.func, ast.Name) and n.func.id == fname]
+        results = []
+        for fc in fcalls:
+            plain = []
+            for x in fc.args:
+                if isinstance(x, ast.Starred):
+                    break
+                plain.append(x)
+            given = dict(zip(tpos, plain))           # t's parameter -> the wrapper's expression (its own parameter)
+            handed = []
+            for x in c2.args:
+                x = x if isinstance(x, ast.Starred) else strip_cast(resolve(t, x))
+                if isinstance(x, ast.Name) and _is_param_unmodified(t, x.id) and x.id in given:
+                    handed.append(given[x.id])
+            results.append(_own_prefix_checked(ctx, w, ctx.cfg(w), fc, handed))
+        if results and all(r[0] for r in results):
+            return True, [f for r in results for f in r[1]], None
+    return None
 
 
 def _own_prefix_checked(ctx: Ctx, fi: FuncInfo, cfg, c: ast.Call, hargs: list) -> tuple[bool, list, str | None]:
@@ -3476,11 +4345,11 @@ def _own_prefix_checked(ctx: Ctx, fi: FuncInfo, cfg, c: ast.Call, hargs: list) -
         if not (isinstance(e, ast.Subscript) and isinstance(e.slice, ast.Slice) and e.slice.step is None):
             return None
         lo, up = e.slice.lower, e.slice.upper
-        if lo is not None and repo.resolve_const(fi.module, lo, fi.cls) != 0:
+        if lo is not None and _const(ctx, fi, lo) != 0:
             return None
         whole_prefix = isinstance(up, ast.Call) and not up.keywords and len(up.args) == 1 and _builtin_chain(fi, up.func) == "len" \
             and own_prefix(up.args[0])              # X[:len(self._prefix)] == self._prefix  <=>  X.startswith(self._prefix)
-        if up is None or (not whole_prefix and repo.resolve_const(fi.module, up, fi.cls) != 22):
+        if up is None or (not whole_prefix and _const(ctx, fi, up) != 22):
             return None
         return buffer_key(e.value)
 
@@ -3530,6 +4399,26 @@ def _own_prefix_checked(ctx: Ctx, fi: FuncInfo, cfg, c: ast.Call, hargs: list) -
     return ok, facts, undecided
 
 
+def _empty_table(e) -> bool:
+    """a freshly built table in which every slot is None: [None] * n, [None, None], [None for _ in ...], [], {}, dict()"""
+    e = strip_cast(e) if e is not None else None
+
+    def none(x) -> bool:
+        return isinstance(x, ast.Constant) and x.value is None
+
+    if isinstance(e, (ast.List, ast.Tuple)):
+        return all(none(x) for x in e.elts)
+    if isinstance(e, ast.Dict):
+        return not e.keys
+    if isinstance(e, ast.BinOp) and isinstance(e.op, ast.Mult):
+        return any(isinstance(x, (ast.List, ast.Tuple)) and x.elts and all(none(y) for y in x.elts) for x in (e.left, e.right))
+    if isinstance(e, ast.ListComp):
+        return none(e.elt)
+    if isinstance(e, ast.Call) and isinstance(e.func, ast.Name) and e.func.id in ("dict", "list") and not e.args and not e.keywords:
+        return True
+    return False
+
+
 def rule_no_bypass(ctx: Ctx) -> None:
     repo = ctx.repo
     # decode_map subscripts used for dispatch (Load context, result called) only in Community.on_packet
@@ -3566,6 +4455,10 @@ def rule_no_bypass(ctx: Ctx) -> None:
                         where = fi.qualname if fi else "?"
                         w_ok = where in ("Community.add_message_handler", "Community.__init__") or (
                             fi is not None and _reached_only_from(ctx, fi, ("Community.add_message_handler", "Community.__init__")))
+                        if not w_ok and c.endswith(".decode_map") and _empty_table(n.value):
+                            # storing a table that holds no handler at all (the initialisation, wherever the state
+                            # lives - e.g. in the constructor of a small state-holder object) registers nothing
+                            w_ok = True
                         ctx.check(w_ok, "no-bypass",
                                   fi or m.relpath, n, f"decode_map written in {where}",
                                   "decode_map is written outside add_message_handler: registration checks bypassed")
@@ -3662,6 +4555,223 @@ _SENDER_HELPER = """def _sender_peer(overlay: Overlay, public_key_bin: bytes, so
 
 
 def cache_retrieval_failed("""
+_UTIL = "ipv8/util.py"
+_CM = "ipv8/community.py"
+_VS_BODY = """        ec = default_eccrypto
+        public_key = ec.key_from_public_bin(auth.public_key_bin)
+        signature_length = ec.get_signature_length(public_key)
+        remainder = data[2 + len(auth.public_key_bin):-signature_length]
+        signature = data[-signature_length:]
+        return ec.is_valid_signature(public_key, data[:-signature_length], signature), remainder
+"""
+_VS_MOVED = """def _check_datagram(key_bin: bytes, data: bytes):
+    from .keyvault.crypto import default_eccrypto as ec
+    public_key = ec.key_from_public_bin(key_bin)
+    n = ec.get_signature_length(public_key)
+    return ec.is_valid_signature(public_key, data[%s:-n], data[-n:]), data[struct.calcsize(">H") + len(key_bin):-n]
+
+
+def strip_sha1_padding("""
+_VS_MOVED_BRANCHY = """def _check_datagram(key_bin: bytes, data: bytes):
+    from .keyvault.crypto import default_eccrypto as ec
+    public_key = ec.key_from_public_bin(key_bin)
+    n = ec.get_signature_length(public_key)
+    if len(data) < n:
+        return False, b""
+    return ec.is_valid_signature(public_key, data[%s:-n], data[-n:]), data[2 + len(key_bin):-n]
+
+
+def strip_sha1_padding("""
+_W_BLOCK = """            # UNPACK
+            auth, _ = self.serializer.unpack_serializable(BinMemberAuthenticationPayload, data, offset=23)
+            signature_valid, remainder = self._verify_signature(auth, data)
+            unpacked = self.serializer.unpack_serializable_list(payloads, remainder, offset=23)
+            # ASSERT
+            if not signature_valid:
+                msg = (f"Incoming packet {[payload_class.__name__ for payload_class in payloads]!s}"
+                       " has an invalid signature")
+                raise PacketDecodingError(msg)
+            # PRODUCE
+            peer = self.network.verified_by_public_key_bin.get(auth.public_key_bin)
+            if peer:
+                peer.add_address(source_address)
+            return func(self, peer or Peer(auth.public_key_bin, source_address), *unpacked)
+"""
+_W_MOVED_CALL = """            peer, unpacked = _authenticate(self, payloads, source_address, data)
+            return func(self, peer, *unpacked)
+"""
+_AUTH_MOVED_OK = """def _authenticate(overlay, payloads, source_address, data):
+    from .messaging.payload_headers import BinMemberAuthenticationPayload
+    from .peer import Peer
+    auth, _ = overlay.serializer.unpack_serializable(BinMemberAuthenticationPayload, data, offset=23)
+    signature_valid, remainder = overlay._verify_signature(auth, data)
+    unpacked = overlay.serializer.unpack_serializable_list(payloads, remainder, offset=23)
+    if not signature_valid:
+        raise RuntimeError("invalid signature")
+    peer = overlay.network.verified_by_public_key_bin.get(auth.public_key_bin)
+    if peer:
+        peer.add_address(source_address)
+    return peer or Peer(auth.public_key_bin, source_address), unpacked
+
+
+def strip_sha1_padding("""
+_AUTH_MOVED_EARLY = _AUTH_MOVED_OK.replace("""    if not signature_valid:
+        raise RuntimeError("invalid signature")
+    peer = overlay.network.verified_by_public_key_bin.get(auth.public_key_bin)
+    if peer:
+        peer.add_address(source_address)
+""", """    peer = overlay.network.verified_by_public_key_bin.get(auth.public_key_bin)
+    if peer:
+        peer.add_address(source_address)
+    if not signature_valid:
+        raise RuntimeError("invalid signature")
+""")
+_AUTH_MOVED_WRONG_PEER = _AUTH_MOVED_OK.replace("return peer or Peer(auth.public_key_bin, source_address), unpacked",
+                                                "return peer or Peer(unpacked[0].public_key_bin, source_address), unpacked")
+_PACK_BODY = """        packet = prefix + bytes([msg_num]) + self.serializer.pack_serializable_list(payloads)
+        if sig:
+            packet += default_eccrypto.create_signature(cast("PrivateKey", self.my_peer.key), packet)
+        return packet
+"""
+_PACK_MOVED = """def _pack_signed(overlay, prefix, msg_num, payloads, sig=True):
+    from .keyvault.crypto import default_eccrypto
+    packet = prefix + bytes([msg_num]) + overlay.serializer.pack_serializable_list(payloads)
+    if sig:
+        packet += default_eccrypto.create_signature(overlay.my_peer.key, packet%s)
+    return packet
+
+
+def strip_sha1_padding("""
+_ONP_DISPATCH = """        if self._prefix != data[:22] or len(data) < 23:
+            return
+        msg_id = data[22]
+        handler = self.decode_map[msg_id]
+        if handler is not None:
+            try:
+                result: Coroutine | None = handler(source_address, data)
+                if iscoroutine(result):
+                    aw_result = cast("Awaitable", result)
+                    self.register_anonymous_task("on_packet", ensure_future(aw_result), ignore=(Exception,))
+            except Exception:
+                self.logger.exception("Exception occurred while handling packet!\\n%s",
+                                      "".join(format_exception(*sys.exc_info())))
+        elif warn_unknown:
+            self.logger.warning("Received unknown message: %d from (%s, %d)", msg_id, *source_address)
+"""
+_ONP_TAIL = """        self._dispatch_packet(source_address, data, warn_unknown)
+
+    @_own_prefix_only
+    def _dispatch_packet(self, source_address: Address, data: bytes, warn_unknown: bool) -> None:
+        if len(data) < 23:
+            return
+        msg_id = data[22]
+        handler = self.decode_map[msg_id]
+        if handler is not None:
+            try:
+                result: Coroutine | None = handler(source_address, data)
+                if iscoroutine(result):
+                    aw_result = cast("Awaitable", result)
+                    self.register_anonymous_task("on_packet", ensure_future(aw_result), ignore=(Exception,))
+            except Exception:
+                self.logger.exception("Exception occurred while handling packet!\\n%s",
+                                      "".join(format_exception(*sys.exc_info())))
+        elif warn_unknown:
+            self.logger.warning("Received unknown message: %d from (%s, %d)", msg_id, *source_address)
+"""
+_PREFIX_DECO = """
+
+def _own_prefix_only(func):
+    def wrapper(self, source_address, data, *args):
+        if self._prefix != data[:%s]:
+            return None
+        return func(self, source_address, data, *args)
+    return wrapper
+
+DEFAULT_MAX_PEERS = 30"""
+_GUARD_DECO = """
+
+def _when_started(func):
+    def wrapper(self, source_address, data):
+        if self.network is None:
+            self.logger.debug("dropping")
+            return None
+        return func(self, %s, data)
+    return wrapper
+
+DEFAULT_MAX_PEERS = 30"""
+_H_PUNCTURE = """    @lazy_wrapper(GlobalTimeDistributionPayload, PuncturePayload)
+    def on_puncture("""
+_ROUND4_WITNESSES = [
+    {"name": "round 4: _verify_signature delegates to a function of another module that verifies only part of the datagram",
+     "file": _LC, "rule": "whole-prefix",
+     "edits": [{"file": _LC, "old": _VS_BODY, "new": "        return _check_datagram(auth.public_key_bin, data)\n"},
+               {"file": _LC, "old": "from .peer import Peer\n", "new": "from .peer import Peer\nfrom .util import _check_datagram\n"},
+               {"file": _UTIL, "old": "def strip_sha1_padding(", "new": _VS_MOVED % "23"}]},
+    {"name": "round 4: _verify_signature delegates to a function of another module (derived header length), whole datagram",
+     "kind": "repaired", "file": _LC, "rule": "whole-prefix",
+     "edits": [{"file": _LC, "old": _VS_BODY, "new": "        return _check_datagram(auth.public_key_bin, data)\n"},
+               {"file": _LC, "old": "from .peer import Peer\n", "new": "from .peer import Peer\nfrom .util import _check_datagram\n"},
+               {"file": _UTIL, "old": "def strip_sha1_padding(", "new": _VS_MOVED % ""}]},
+    {"name": "round 4: _verify_signature is a thin delegation to a branching function that verifies only part of the datagram",
+     "file": _UTIL, "rule": "whole-prefix",
+     "edits": [{"file": _LC, "old": _VS_BODY, "new": "        return _check_datagram(auth.public_key_bin, data)\n"},
+               {"file": _LC, "old": "from .peer import Peer\n", "new": "from .peer import Peer\nfrom .util import _check_datagram\n"},
+               {"file": _UTIL, "old": "def strip_sha1_padding(", "new": _VS_MOVED_BRANCHY % "23"}]},
+    {"name": "round 4: thin delegation to a branching function (early `invalid` return), whole datagram verified",
+     "kind": "repaired", "file": _LC, "rule": "whole-prefix",
+     "edits": [{"file": _LC, "old": _VS_BODY, "new": "        return _check_datagram(auth.public_key_bin, data)\n"},
+               {"file": _LC, "old": "from .peer import Peer\n", "new": "from .peer import Peer\nfrom .util import _check_datagram\n"},
+               {"file": _UTIL, "old": "def strip_sha1_padding(", "new": _VS_MOVED_BRANCHY % ""}]},
+    {"name": "round 4: wrapper block moved to a function of another module that re-homes the peer before the verdict",
+     "file": _UTIL, "rule": "effect-after-verdict",
+     "edits": [{"file": _LC, "old": _W_BLOCK, "new": _W_MOVED_CALL},
+               {"file": _LC, "old": "from .peer import Peer\n", "new": "from .peer import Peer\nfrom .util import _authenticate\n"},
+               {"file": _UTIL, "old": "def strip_sha1_padding(", "new": _AUTH_MOVED_EARLY}]},
+    {"name": "round 4: wrapper block moved to a function of another module that builds the peer from another key",
+     "file": _LC, "rule": "peer-from-auth-key",
+     "edits": [{"file": _LC, "old": _W_BLOCK, "new": _W_MOVED_CALL},
+               {"file": _LC, "old": "from .peer import Peer\n", "new": "from .peer import Peer\nfrom .util import _authenticate\n"},
+               {"file": _UTIL, "old": "def strip_sha1_padding(", "new": _AUTH_MOVED_WRONG_PEER}]},
+    {"name": "round 4: wrapper block moved unchanged to a function of another module that takes the overlay",
+     "kind": "repaired", "file": _LC, "rule": "verify-before-call",
+     "edits": [{"file": _LC, "old": _W_BLOCK, "new": _W_MOVED_CALL},
+               {"file": _LC, "old": "from .peer import Peer\n", "new": "from .peer import Peer\nfrom .util import _authenticate\n"},
+               {"file": _UTIL, "old": "def strip_sha1_padding(", "new": _AUTH_MOVED_OK}]},
+    {"name": "round 4: packer moved to a function of another module that signs the packet without its prefix",
+     "file": _UTIL, "rule": "sign-covers-all",
+     "edits": [{"file": _LC, "old": _PACK_BODY, "new": "        return _pack_signed(self, prefix, msg_num, payloads, sig)\n"},
+               {"file": _LC, "old": "from .peer import Peer\n", "new": "from .peer import Peer\nfrom .util import _pack_signed\n"},
+               {"file": _UTIL, "old": "def strip_sha1_padding(", "new": _PACK_MOVED % "[22:]"}]},
+    {"name": "round 4: packer moved unchanged to a function of another module",
+     "kind": "repaired", "file": _LC, "rule": "sign-covers-all",
+     "edits": [{"file": _LC, "old": _PACK_BODY, "new": "        return _pack_signed(self, prefix, msg_num, payloads, sig)\n"},
+               {"file": _LC, "old": "from .peer import Peer\n", "new": "from .peer import Peer\nfrom .util import _pack_signed\n"},
+               {"file": _UTIL, "old": "def strip_sha1_padding(", "new": _PACK_MOVED % ""}]},
+    {"name": "round 4: prefix comparison moved to a guard decorator of a tail method, but compares 21 bytes only",
+     "file": _CM, "rule": "own-prefix-before-dispatch",
+     "edits": [{"file": _CM, "old": _ONP_DISPATCH, "new": _ONP_TAIL},
+               {"file": _CM, "old": "\n\nDEFAULT_MAX_PEERS = 30", "new": _PREFIX_DECO % "21"}]},
+    {"name": "round 4: prefix comparison moved to a guard decorator of a tail method",
+     "kind": "repaired", "file": _CM, "rule": "own-prefix-before-dispatch",
+     "edits": [{"file": _CM, "old": _ONP_DISPATCH, "new": _ONP_TAIL},
+               {"file": _CM, "old": "\n\nDEFAULT_MAX_PEERS = 30", "new": _PREFIX_DECO % "22"}]},
+    {"name": "round 4: prefix comparison spelled any((...)) with the wrong polarity",
+     "file": _CM, "rule": "own-prefix-before-dispatch", "allow_error": True,
+     "old": "        if self._prefix != data[:22] or len(data) < 23:\n",
+     "new": "        if all((self._prefix != data[:22], len(data) < 23)):\n"},
+    {"name": "round 4: prefix comparison spelled `if any((...)): return`",
+     "kind": "repaired", "file": _CM, "rule": "own-prefix-before-dispatch",
+     "old": "        if self._prefix != data[:22] or len(data) < 23:\n",
+     "new": "        if any((self._prefix != data[:22], len(data) < 23)):\n"},
+    {"name": "round 4: a decorator outside lazy_wrapper that hands the handler another source address is not a guard",
+     "file": _CM, "rule": "handler-auth",
+     "edits": [{"file": _CM, "old": _H_PUNCTURE, "new": "    @_when_started\n" + _H_PUNCTURE},
+               {"file": _CM, "old": "\n\nDEFAULT_MAX_PEERS = 30", "new": _GUARD_DECO % "self.my_estimated_wan"}]},
+    {"name": "round 4: a guard decorator outside lazy_wrapper (drops the datagram or passes it on unchanged)",
+     "kind": "repaired", "file": _CM, "rule": "handler-auth",
+     "edits": [{"file": _CM, "old": _H_PUNCTURE, "new": "    @_when_started\n" + _H_PUNCTURE},
+               {"file": _CM, "old": "\n\nDEFAULT_MAX_PEERS = 30", "new": _GUARD_DECO % "source_address"}]},
+]
 WITNESSES = [
     {"name": "lazy_wrapper: verified-peer lookup AND add_address hoisted before the signature check (seeded C01-m11)",
      "file": _LC, "rule": "effect-after-verdict",
@@ -3954,3 +5064,4 @@ WITNESSES = [
     def walk_to(self, address: Address) -> None:
         self._handler_for(245)(address, b"")"""}]},
 ]
+WITNESSES += _ROUND4_WITNESSES
